@@ -11,6 +11,7 @@ pub fn dispatch(f: &[String]) -> String
         "tok" => op_tok(f),
         "lit" => op_lit(f),
         "fmt" => op_fmt(f),
+        "ovl" => op_ovl(f),
         "ofmt" => op_ofmt(f),
         _ => format!("{{\"unknown_op\":{}}}", json::string(&f[0])),
     }
@@ -395,4 +396,28 @@ fn op_fmt(f: &[String]) -> String
     let defs = asm::defs::init();
     let bytes = crate::driver::format_output(&fileserver, &decls, &defs, &out, fmt);
     format!("{{\"out\":\"{}\"}}", json::hex(&bytes))
+}
+
+
+/// ovl <pos:size,...|-> : util::OverlapChecker, one accept/reject letter per step
+fn op_ovl(f: &[String]) -> String
+{
+    let mut checker = util::OverlapChecker::new();
+    let mut out = String::new();
+    if f[1] != "-"
+    {
+        for ps in f[1].split(',')
+        {
+            let mut it = ps.split(':');
+            let p: usize = it.next().unwrap().parse().unwrap();
+            let s: usize = it.next().unwrap().parse().unwrap();
+            let mut report = diagn::Report::new();
+            match checker.check_and_insert(&mut report, diagn::Span::new_dummy(), p, s)
+            {
+                Ok(()) => out.push('a'),
+                Err(()) => out.push('r'),
+            }
+        }
+    }
+    format!("{{\"steps\":\"{}\"}}", out)
 }
